@@ -141,6 +141,10 @@ def num_arg(val: Any, default: Optional[NumberT] = None) -> NumberT:
 
     If `val` can't be cast to an int or float, return `default`.
     """
+    if isinstance(val, bool):
+        # bool is a subclass of int, but str(True) is not a number
+        return int(val)
+
     if isinstance(val, (int, float)):
         return val
 
